@@ -4,6 +4,7 @@ import (
 	"context"
 	"encoding/xml"
 	"fmt"
+	"io"
 	"strings"
 
 	"mellium.im/xmlstream"
@@ -15,6 +16,7 @@ import (
 	"verif/nd"
 	"verif/vs"
 	"verif/vsess"
+	"verif/xu"
 )
 
 // historyIterBody: the handler-internal state of a tracked archive query
@@ -34,6 +36,8 @@ func historyIterBody(c *nd.Ctx) nd.Result {
 	take := c.Choose(4, "application-takes") // 0..2 messages, 3: until the iterator ends
 	cancelling := c.Choose(2, "context-cancelled") == 1
 	closes := c.Choose(2, "application-closes-the-iterator") == 1
+	reads := c.Choose(2, "application-reads-the-message-streams") == 1
+	var readBodies []string
 	ns := stanza.NSClient
 	var env *vsess.Env
 	var setupErr error
@@ -88,14 +92,34 @@ func historyIterBody(c *nd.Ctx) nd.Result {
 				break
 			}
 			got++
+			if reads {
+				// the iterator hands out the message's token stream: read it
+				var b strings.Builder
+				cur := it.Current()
+				for i := 0; i < 200 && cur != nil; i++ {
+					tok, err := cur.Token()
+					if tok != nil {
+						b.WriteString(xu.TokString([]xml.Token{tok}))
+					}
+					if err != nil {
+						if err != io.EOF {
+							b.WriteString(" ERR:" + err.Error())
+						}
+						break
+					}
+				}
+				readBodies = append(readBodies, b.String())
+			}
 		}
 		if closes {
 			it.Close()
 		}
 		if !closes {
 			// an application that walks away from a query without closing the
-			// iterator lets the query's context end
+			// iterator lets the query's context end and the iterator run out
 			cancel()
+			for it.Next() {
+			}
 		}
 		appDone = true
 		env.PeerWrite(`<message id='sentinel'><body>s</body></message></stream:stream>`)
@@ -105,7 +129,7 @@ func historyIterBody(c *nd.Ctx) nd.Result {
 	if setupErr != nil {
 		panic("c09: setup: " + setupErr.Error())
 	}
-	desc := fmt.Sprintf("history query: archive sends %d messages, application takes %d (3 = all), closes=%v, context cancelled concurrently=%v", nmsgs, take, closes, cancelling)
+	desc := fmt.Sprintf("history query: archive sends %d messages, application takes %d (3 = all), closes=%v, context cancelled concurrently=%v, reads the message streams=%v", nmsgs, take, closes, cancelling, reads)
 	c.Note("%s outcome=%s taken=%d", desc, out.Kind, got)
 	for _, t := range out.Trace {
 		c.Note("  %s", t)
@@ -134,6 +158,12 @@ func historyIterBody(c *nd.Ctx) nd.Result {
 	}
 	if env.ServeErr != nil {
 		return fail("serve-error", "Serve returned %v", env.ServeErr)
+	}
+	for i, b := range readBodies {
+		want := fmt.Sprintf(`id="r%d"`, i)
+		if !strings.Contains(b, want) || !strings.Contains(b, "<{jabber:client}body") || strings.Contains(b, "ERR:") || strings.Contains(b, "sentinel") || strings.Contains(b, "fin") {
+			return fail("message-stream-differs", "message %d handed out by the iterator reads as %q", i, b)
+		}
 	}
 	if !sentinel {
 		return fail("sentinel-not-dispatched", "the stanza after the archive's answers never reached its handler")
